@@ -572,8 +572,34 @@ type ModelResult struct {
 // library functions (counterexample-guided refinement with ground facts).
 func solveModel(ss *SolverSet, asserts []*Term, names []string, nts []*Term, extra []*Term, to int, useCVC bool) ModelResult {
 	res := ModelResult{}
-	for round := 0; round < 30; round++ {
+	var pins []*Term
+	base := asserts
+	useHints := true
+	for round := 0; round < 40; round++ {
 		res.Rounds = round
+		asserts := base
+		if pins != nil {
+			asserts = append(append([]*Term{}, base...), pins...)
+		}
+		hinted := false
+		if useHints && pins == nil {
+			// first try inputs on which the real library values are already known (battery)
+			vars, ufs, seen := map[*Term]bool{}, map[*Term]bool{}, map[*Term]bool{}
+			for _, a := range asserts {
+				a.collect(vars, ufs, seen)
+			}
+			var hs []*Term
+			for u := range ufs {
+				if h := batteryHint(u); h != nil && !h.IsFalse() {
+					hs = append(hs, h)
+				}
+			}
+			if len(hs) > 0 {
+				sort.Slice(hs, func(i, j int) bool { return hs[i].id < hs[j].id })
+				asserts = append(append([]*Term{}, asserts...), hs...)
+				hinted = true
+			}
+		}
 		vars, ufs, seen := map[*Term]bool{}, map[*Term]bool{}, map[*Term]bool{}
 		for _, a := range asserts {
 			a.collect(vars, ufs, seen)
@@ -608,6 +634,15 @@ func solveModel(ss *SolverSet, asserts []*Term, names []string, nts []*Term, ext
 			gv = append(gv, a.Args...)
 		}
 		v := ss.decide(asserts, gv, to, useCVC)
+		if hinted && v.Result != "sat" {
+			useHints = false
+			continue
+		}
+		if pins != nil && v.Result != "sat" {
+			// the pinned inputs do not stay on this path under the real library values: unpin and go on
+			pins = nil
+			continue
+		}
 		res.Solvers = v.Solvers
 		res.By = v.By
 		if v.Result == "unsat" {
@@ -621,6 +656,9 @@ func solveModel(ss *SolverSet, asserts []*Term, names []string, nts []*Term, ext
 		}
 		learned := 0
 		idx := len(nts) + len(extra)
+		if os.Getenv("GOSMT_DEBUG_REFINE") != "" {
+			fmt.Fprintf(os.Stderr, "refine round %d pins=%v by=%s model=%v\n", round, pins != nil, v.By, v.Model)
+		}
 		for _, a := range apps {
 			appVal := v.Model[idx]
 			argVals := v.Model[idx+1 : idx+1+len(a.Args)]
@@ -630,9 +668,8 @@ func solveModel(ss *SolverSet, asserts []*Term, names []string, nts []*Term, ext
 				continue
 			}
 			if nat != appVal {
-				if addGroundFact(a, argVals, nat) {
-					learned++
-				}
+				addGroundFact(a, argVals, nat)
+				learned++
 			}
 		}
 		if learned == 0 {
@@ -644,9 +681,14 @@ func solveModel(ss *SolverSet, asserts []*Term, names []string, nts []*Term, ext
 			res.Extra = v.Model[len(nts) : len(nts)+len(extra)]
 			return res
 		}
+		// keep the inputs, let the solver recompute everything that depends on the corrected values
+		pins = nil
+		for i, t := range nts {
+			pins = append(pins, mkEq(t, valueTerm(v.Model[i], t.Sort)))
+		}
 	}
 	res.Status = "inconclusive"
-	res.Reason = "UF refinement against the real library did not converge in 30 rounds"
+	res.Reason = "UF refinement against the real library did not converge in 40 rounds"
 	return res
 }
 
